@@ -101,6 +101,16 @@ def work(job):
             files["src/exact/f%03d.rs" % fi] = ("fn f%d() {\n%s    warn!(\"[ref: %d] has one\");\n}\n" % (fi, body, 7000 + fi)).encode()
         truth_missing = sum(payload)
         structured = False
+    elif kind == "bigcoords":
+        # line numbers and columns beyond 16 bits: 70 000 lines before a statement, 70 000 characters (ASCII / multi-byte / tabs) before
+        # a statement on its line
+        eol = rnd.choice(["\n", "\r\n"])
+        filler_line = rnd.choice(["", "// x", "let a = 1;"])
+        many_lines = (filler_line + eol) * rnd.choice([65534, 65535, 65536, 70000])
+        pad = rnd.choice(["/* " + "x" * 69990 + " */ ", "/* " + "é" * 40000 + " */ ", "\t" * 66000, "let s = \"" + "y" * 65530 + "\"; "])
+        files = {"src/manylines.rs": (many_lines + '    info!("after many lines");' + eol + '    warn!(a = 1; "and one more");' + eol).encode(),
+                 "src/longline.rs": ("fn l() {" + eol + pad + 'info!("far to the right"); error!("and further");' + eol + "}" + eol).encode()}
+        structured = rnd.random() < 0.5
     elif kind == "sameline":
         # several statements on one source line (match arms, if/else, closures): every one has its own column
         lines = []
@@ -138,7 +148,12 @@ def work(job):
                                macros=gen.DEFAULT_MACROS + ([("log", "debug")] if kind.startswith("corpus") else []) + ([gen.DEFAULT_MACROS[0]] if red else []))
         res["counters"]["redundant_configuration"] = int(red)
         amb = ambient.choose(rnd, files, p=0.3, kinds=["ro_sources", "ro_sources", "mtimes", "siblings", "mix"])
-        out = lab.run_tree(built, box, files, cfg, trace=False, timeout=300, ambient=amb)
+        # variables a developer shell or CI job commonly exports; none of them is part of the tool's interface
+        envx = rnd.choice([None, None, None, {"RUST_LOG": rnd.choice(["warn", "error", "off", "debug", "trace", "breadlog=error", "nonsense"])},
+                           {"NO_COLOR": "1", "TERM": "dumb"}, {"RUST_BACKTRACE": "full", "LANG": "C", "LC_ALL": "C"},
+                           {"CLICOLOR_FORCE": "1", "TERM": "xterm-256color", "COLUMNS": "20"}, {"TZ": "Pacific/Kiritimati", "RUST_LOG_STYLE": "always"}])
+        res["counters"]["runs_with_extra_environment"] = int(bool(envx))
+        out = lab.run_tree(built, box, files, cfg, trace=False, timeout=300, ambient=amb, env_extra=envx)
     res["counters"]["ambient_" + amb["kind"]] = 1
     if out.check.panicked() or out.edit.panicked() or out.check.timed_out or out.edit.timed_out:
         res["inconclusive"]["run-crashed-or-timeout (C17's business)"] = 1
@@ -193,6 +208,8 @@ def main(tier):
         jobs.append((built, "exact", ck.seed, i, per_file))
     for i in range(200 if quick else 3000):
         jobs.append((built, "sameline", ck.seed, i, None))
+    for i in range(6 if quick else 40):
+        jobs.append((built, "bigcoords", ck.seed, i, None))
     for i in range(6):
         jobs.append((built, "crafted", ck.seed, i, i % 3))
     shards, reg = trees.corpus_shards(rnd, 16, registry_n=0 if quick else 1500)
